@@ -159,16 +159,16 @@ var props = map[string]*propCfg{
 		Harness: "hcore", Level: "exploration", OnePerProcess: true,
 		QuickRuns: 1600, QuickBudgetS: 150, ThoroughRuns: 100000, ThoroughBudgetS: 1800,
 		WatchdogSlackS: 180, DetSeedsQuick: 0, DetSeedsThorough: 0,
-		Rule:        "same multi-environment workload plus tasks that fail to start / never start / fail CONFIGURE, a template that fails to load, DESTROY hook tasks; oracles after every destroy or failed create: environment not listed, no task still owned by it, every task it owned was asked to terminate unless keep-tasks, success is not reported while still listed, leftovers are killed by the next CleanupTasks; non-trivial = the oracle's situation really occurred; distinct = distinct (scenario, interleaving)",
+		Rule:        "same multi-environment workload plus tasks that fail to start / never start / fail CONFIGURE, a template that fails to load, DESTROY hook tasks; oracles after every destroy or failed create: environment not listed, no task still owned by it, every task it owned was asked to terminate unless keep-tasks, success is not reported while still listed nor while the KILL call for one of its tasks failed and was not repeated (KILL calls fail at the HTTP level in some runs), leftovers are killed by the next CleanupTasks; non-trivial = the oracle's situation really occurred; distinct = distinct (scenario, interleaving)",
 		Real:        []string{"core.RpcServer methods (NewEnvironment, ControlEnvironment, DestroyEnvironment, GetEnvironments, GetTasks, CleanupTasks)", "core/environment: Manager (create, teardown, event loop), Environment FSM, transition_*.go bodies", "core/task: Manager (acquire/configure/transition/release/kill, status handling), scheduler event handlers (offers, updates, messages, failure, reconciliation), roster, matching", "core/controlcommands", "core/workflow (load from a generated local git repository, role tree, template processing)", "core/repos (local repository)", "apricot/local + cfgbackend.ConsulSource + hashicorp consul api", "mesos-go controller, event/call rules, ack handling", "looplab/fsm (instrumented copy)"},
 		Stub:        []string{"Mesos master, agents, executors and tasks: simmesos behind the calls.Caller seam (verif hook SetCallerForVerif)", "Consul: simconsul (http.RoundTripper)", "Kafka: capturing event writers", "gRPC transport: RPC methods are called directly on the RpcServer object (verif hook)", "metrics HTTP server: disabled (port -1)"},
 		Assumptions: append([]string{"simmesos is a model of Mesos written from the scheduler API documentation", "violations are confirmed by replaying the recorded tape in a fresh process (canonical log hash must match); tapes of this harness are not shrunk"}, commonAssumptions...),
 	},
 	"C17": {
 		Harness: "hexec", Level: "exploration",
-		QuickRuns: 6000, QuickBudgetS: 90, ThoroughRuns: 600000, ThoroughBudgetS: 1200,
+		QuickRuns: 20000, QuickBudgetS: 90, ThoroughRuns: 600000, ThoroughBudgetS: 1200,
 		WatchdogSlackS: 120, DetSeedsQuick: 20, DetSeedsThorough: 200,
-		Rule: "one run = the real executor (event loop, handlers, basic / hook / controllable tasks, RpcClient, transitioners) on a simulated host with 1-3 tasks; per task a drawn process-group script (main process, optional wrapping shell, optional forked children; lifetime, exit code, TERM/INT dispositions incl. slow and ignoring, exec failure) and, for controllable tasks, a simulated OCC device (listen/ready delays or never, start-up state, per-transition ok/slow/too slow/fail/hang/crash, exit after DONE or not, pid reported or not); the harness plays agent and core: LAUNCH, awaited transitions, hook triggers (also after the kill), KILL, repeated KILL, KILL of an unknown task at drawn instants, UPDATE send failures; all goroutines of executor, tasks and process behaviours under one seeded schedule and fake clock; oracles after 120 s of settling: at most one terminal status and nothing after it, a child ended by the executor's signal or walked to DONE on request is not reported FAILED, no process of a group alive 60 s after STOP (basic) / KILL, a killed task has a terminal status, no panic in executor code (recovered per goroutine, named by function and statement), event loop still serves a fresh LAUNCH; fault intensity drawn per run (1 in 3/6/12); distinct = distinct (scenario, interleaving)",
+		Rule: "one run = the real executor (event loop, handlers, basic / hook / controllable tasks, RpcClient, transitioners) on a simulated host with 1-3 tasks; per task a drawn process-group script (main process, optional wrapping shell, optional forked children; lifetime, exit code, TERM/INT dispositions incl. slow and ignoring, exec failure) and, for controllable tasks, a simulated OCC device (listen/ready delays or never, start-up state, per-transition ok/slow/too slow/fail/hang/crash, exit after DONE or not, pid reported or not); the harness plays agent and core: LAUNCH, awaited transitions, hook triggers (also after the kill), KILL, repeated KILL, KILL of an unknown task at drawn instants, START/STOP/START cycles, lock-step mode (2-3 basic tasks started and stopped together under a 150 ms agent round trip, the agent having the call half way through), children that crash by a signal, UPDATE send failures; all goroutines of executor, tasks and process behaviours under one seeded schedule and fake clock; oracles after 120 s of settling: at most one terminal status and nothing after it, a child ended by the executor's signal or walked to DONE on request is not reported FAILED, no process of a group alive 60 s after STOP (basic) / KILL, a killed task has a terminal status, no panic in executor code (recovered per goroutine, named by function and statement), event loop still serves a fresh LAUNCH; fault intensity drawn per run (1 in 3/6/12); distinct = distinct (scenario, interleaving)",
 		Real: []string{"executor: eventLoop, buildEventHandler, handleLaunchEvent / handleKillEvent / handleMessageEvent, status and message plumbing (actions.go)", "executor/executable: NewTask, BasicTask, HookTask, ControllableTask (Launch, Kill, Transition, doTermIntKill, pidExists), prepareTaskCmd", "executor/executorcmd: RpcClient.doTransition, ExecutorCommand_Transition; transitioner.Direct", "core/controlcommands command and response encoding"},
 		Stub: []string{"operating system: simrt/simos process table (process groups, signals, zombies, reaping) behind os/exec, syscall.Kill, os.FindProcess (rewriter rule R5)", "controlled processes and their OCC server: behaviour scripts + simulated device (OccClient) behind the dial seam (verif hook NewClientDialedForVerif)", "Mesos agent: harness (calls.Sender + event decoder; verif hook NewExecutorForVerif builds the executor state as Run does); Run's re-subscription loop is re-implemented by the harness (1 s backoff, checkpointing on)", "FairMQ transitioner not exercised here (C16 covers it): tasks are DIRECT, BASIC or HOOK"},
 		Assumptions: append([]string{
@@ -181,7 +181,7 @@ var props = map[string]*propCfg{
 		Harness: "hcore", Level: "exploration", OnePerProcess: true,
 		QuickRuns: 1600, QuickBudgetS: 150, ThoroughRuns: 100000, ThoroughBudgetS: 1800,
 		WatchdogSlackS: 180, DetSeedsQuick: 0, DetSeedsThorough: 0,
-		Rule:        "one run = whole core with an environment in a drawn phase of its life; either the core is crashed at a drawn instant (its goroutines never run again, only simconsul and simmesos survive) and a new incarnation is booted, or the subscription is dropped and re-established; oracles: restart subscribes under the stored framework id, every task Mesos still holds alive from the previous life is killed within 60 s, the new instance lists no environment; reconnect: no KILL for tasks owned by the live environment, environment state unchanged; non-trivial = the oracle's situation really occurred; distinct = distinct (scenario, interleaving)",
+		Rule:        "one run = whole core with an environment in a drawn phase of its life; either the core is crashed at a drawn instant (its goroutines never run again, only simconsul and simmesos survive) and a new incarnation is booted, or the subscription is dropped and re-established; oracles: restart subscribes under the stored framework id, every task Mesos still holds alive from the previous life is killed within 60 s, the new instance lists no environment; reconnect (in a third of these runs the environment was created while the slow KILL calls of its destroyed predecessor were in flight): no KILL for tasks owned by the live environment, environment state unchanged; non-trivial = the oracle's situation really occurred; distinct = distinct (scenario, interleaving)",
 		Real:        []string{"core.RpcServer methods (NewEnvironment, ControlEnvironment, DestroyEnvironment, GetEnvironments, GetTasks, CleanupTasks)", "core/environment: Manager (create, teardown, event loop), Environment FSM, transition_*.go bodies", "core/task: Manager (acquire/configure/transition/release/kill, status handling), scheduler event handlers (offers, updates, messages, failure, reconciliation), roster, matching", "core/controlcommands", "core/workflow (load from a generated local git repository, role tree, template processing)", "core/repos (local repository)", "apricot/local + cfgbackend.ConsulSource + hashicorp consul api", "mesos-go controller, event/call rules, ack handling", "looplab/fsm (instrumented copy)"},
 		Stub:        []string{"Mesos master, agents, executors and tasks: simmesos behind the calls.Caller seam (verif hook SetCallerForVerif)", "Consul: simconsul (http.RoundTripper)", "Kafka: capturing event writers", "gRPC transport: RPC methods are called directly on the RpcServer object (verif hook)", "metrics HTTP server: disabled (port -1)"},
 		Assumptions: append([]string{"simmesos is a model of Mesos written from the scheduler API documentation", "violations are confirmed by replaying the recorded tape in a fresh process (canonical log hash must match); tapes of this harness are not shrunk"}, commonAssumptions...),
@@ -190,7 +190,7 @@ var props = map[string]*propCfg{
 		Harness: "hcore", Level: "exploration", OnePerProcess: true,
 		QuickRuns: 3000, QuickBudgetS: 120, ThoroughRuns: 200000, ThoroughBudgetS: 1800,
 		WatchdogSlackS: 180, DetSeedsQuick: 0, DetSeedsThorough: 0,
-		Rule:        "one run = whole core, 2-4 agents with drawn attributes (zone, multi-valued kind), scalar resources near and far from the demand (0.45/1.2/8 cpus, 300/4096 MB) and fragmented port ranges; one workflow with constraints at root, group, role and task-template level (same attribute redefined nearer), tasks wanting 0.1-1 cpu, 64-256 MB, optional static ports, 0-2 inbound channels; oracles at the simulated master for every ACCEPT: no launch beyond the offer (scalars summed over the launches of one ACCEPT incl. a new executor, ports inside the offer and distinct), agent satisfies all merged constraints (reference merge: nearest definition wins), template wants covered, static ranges requested verbatim, every offer used or declined, core does not crash; distinct = distinct (scenario, interleaving)",
+		Rule:        "one run = whole core, 2-4 agents with drawn attributes (zone, multi-valued kind), scalar resources near and far from the demand (0.45/1.2/8 cpus, 300/4096 MB) and fragmented port ranges (among them one without any port a control port can be taken from: the task cannot be completed on that offer); one workflow with constraints at root, group, role and task-template level (same attribute redefined nearer), tasks wanting 0.1-1 cpu, 64-256 MB, optional static ports, 0-2 inbound channels; oracles at the simulated master for every ACCEPT: no launch beyond the offer (scalars summed over the launches of one ACCEPT incl. a new executor, ports inside the offer and distinct), agent satisfies all merged constraints (reference merge: nearest definition wins), template wants covered, static ranges requested verbatim, every offer used or declined, core does not crash; distinct = distinct (scenario, interleaving)",
 		Real:        []string{"core.RpcServer methods (NewEnvironment, ControlEnvironment, DestroyEnvironment, GetEnvironments, GetTasks, CleanupTasks)", "core/environment: Manager (create, teardown, event loop), Environment FSM, transition_*.go bodies", "core/task: Manager (acquire/configure/transition/release/kill, status handling), scheduler event handlers (offers, updates, messages, failure, reconciliation), roster, matching", "core/controlcommands", "core/workflow (load from a generated local git repository, role tree, template processing)", "core/repos (local repository)", "apricot/local + cfgbackend.ConsulSource + hashicorp consul api", "mesos-go controller, event/call rules, ack handling", "looplab/fsm (instrumented copy)"},
 		Stub:        []string{"Mesos master, agents, executors and tasks: simmesos behind the calls.Caller seam (verif hook SetCallerForVerif)", "Consul: simconsul (http.RoundTripper)", "Kafka: capturing event writers", "gRPC transport: RPC methods are called directly on the RpcServer object (verif hook)", "metrics HTTP server: disabled (port -1)"},
 		Assumptions: append([]string{"simmesos validates an ACCEPT the way a Mesos master does (documented behaviour); the code's numeric port thresholds are not part of the oracle", "violations are confirmed by replay in a fresh process; tapes of this harness are not shrunk"}, commonAssumptions...),
@@ -199,7 +199,7 @@ var props = map[string]*propCfg{
 		Harness: "hcore", Level: "exploration", OnePerProcess: true,
 		QuickRuns: 3000, QuickBudgetS: 120, ThoroughRuns: 200000, ThoroughBudgetS: 1800,
 		WatchdogSlackS: 180, DetSeedsQuick: 0, DetSeedsThorough: 0,
-		Rule:        "one run = whole core, a workflow of 1-4 FairMQ tasks with 0-2 inbound (tcp/ipc, transports, global aliases) and 0-2 outbound channels each (target by role path, by alias, explicit tcp://, dangling); oracles on the CONFIGURE arguments each simulated executor receives: every inbound channel is told to bind an endpoint whose port was allocated to that task, every outbound channel gets tcp://<host of the binder>:<that port> (or the ipc path) and the inbound side's transport, explicit targets unchanged, dangling targets and clashing aliases make the configuration fail; distinct = distinct (scenario, interleaving)",
+		Rule:        "one run = whole core, a workflow of 1-4 FairMQ tasks with 0-2 inbound (tcp/ipc, transports, global aliases) and 0-2 outbound channels each (target by role path, by alias, explicit tcp://, dangling); oracles on the CONFIGURE arguments each simulated executor receives: every inbound channel is told to bind an endpoint whose port was allocated to that task, every outbound channel gets tcp://<host of the binder>:<that port> (or the ipc path) and the inbound side's transport, explicit targets unchanged, dangling targets and clashing aliases make the configuration fail (alias-heavy mode: one task per host, equal port ranges, many claimants of one alias); in one run in six (reuseUnlockedTasks on) the environment is then destroyed keeping its tasks while the same tree under other role paths is created with a slow before_DEPLOY call, so that the newcomer claims the released tasks, and the same oracles apply to the second configuration; distinct = distinct (scenario, interleaving)",
 		Real:        []string{"core.RpcServer methods (NewEnvironment, ControlEnvironment, DestroyEnvironment, GetEnvironments, GetTasks, CleanupTasks)", "core/environment: Manager (create, teardown, event loop), Environment FSM, transition_*.go bodies", "core/task: Manager (acquire/configure/transition/release/kill, status handling), scheduler event handlers (offers, updates, messages, failure, reconciliation), roster, matching", "core/controlcommands", "core/workflow (load from a generated local git repository, role tree, template processing)", "core/repos (local repository)", "apricot/local + cfgbackend.ConsulSource + hashicorp consul api", "mesos-go controller, event/call rules, ack handling", "looplab/fsm (instrumented copy)"},
 		Stub:        []string{"Mesos master, agents, executors and tasks: simmesos behind the calls.Caller seam (verif hook SetCallerForVerif)", "Consul: simconsul (http.RoundTripper)", "Kafka: capturing event writers", "gRPC transport: RPC methods are called directly on the RpcServer object (verif hook)", "metrics HTTP server: disabled (port -1)"},
 		Assumptions: append([]string{"simmesos validates an ACCEPT the way a Mesos master does (documented behaviour); the code's numeric port thresholds are not part of the oracle", "violations are confirmed by replay in a fresh process; tapes of this harness are not shrunk"}, commonAssumptions...),
